@@ -133,16 +133,19 @@ def get_branch_type(opcode: int) -> bool | None:  # noqa: D103
         case (
             "POP_JUMP_IF_TRUE"
             | "POP_JUMP_IF_NOT_NONE"
+            | "POP_JUMP_IF_NONE"
             | "INSTRUMENTED_POP_JUMP_IF_TRUE"
             | "INSTRUMENTED_POP_JUMP_IF_NOT_NONE"
+            | "INSTRUMENTED_POP_JUMP_IF_NONE"
         ):
+            # These jump to arg if the reported predicate holds: ToS is True, or the
+            # `is not None` / `is None` comparison that the branch instrumentation
+            # reports for the None-based jumps (see NONE_BASED_JUMPS_MAPPING).
             return True
         case (
             "POP_JUMP_IF_FALSE"
-            | "POP_JUMP_IF_NONE"
             | "FOR_ITER"
             | "INSTRUMENTED_POP_JUMP_IF_FALSE"
-            | "INSTRUMENTED_POP_JUMP_IF_NONE"
         ):
             return False
         case _:
